@@ -15,7 +15,7 @@ LEVEL_TEXT = ("Static structural proof of necessary conditions: (R14.1) the 17 s
               "(schema, entry, attribute) call made by the runner; (R14.3) the three per-section passes iterate the "
               "section enum itself; (R14.4) error-context push/pop balanced. That released schemas pass and that a "
               "seeded fault is detected at every position are NOT decided.")
-LEVEL_EXTRA = "Added after the seeded evaluation: (R14.5) known/unknown of an attribute is decided against the valid-attribute table of the entry's own section."
+LEVEL_EXTRA = "Added after the seeded evaluation: (R14.5) known/unknown of an attribute is decided against the valid-attribute table of the entry's own section. (R14.6) no issue list is discarded inside the compliance modules."
 
 SIG = ["hed_schema", "tag_entry", "attribute_name"]
 
@@ -234,3 +234,12 @@ def run(ctx):
                           "reported as unknown" % (norm(x)[:50], norm(x.comparators[0])[:40]),
                           desc="%s: known/unknown decided by the section's table" % m.short)
     ctx.floor("R14.5", "known/unknown membership tests in HedSchemaEntry", n_tests, 2)
+
+    # ---------------- R14.6: nothing a validator reports is thrown away
+    ctx.rule("R14.6", "no issue list returned inside the compliance modules is discarded")
+    from sa.issues import check_no_dropped_issues
+    sc14 = [f for f in prog.functions.values() if f.module.name in (
+        "hed.schema.schema_compliance", "hed.schema.schema_attribute_validators", "hed.schema.schema_attribute_validator_hed_id",
+        "hed.schema.schema_validation_util")]
+    ns14 = check_no_dropped_issues(ctx, "R14.6", sc14)
+    ctx.floor("R14.6", "issue-producing calls in the compliance modules", ns14, 8)
